@@ -100,3 +100,67 @@ Theorem C11_fn_body_markup : C11_body_markup_statement.
 Proof. exact fn_body_markup. Qed.
 Check C11_fn_body_markup : C11_body_markup_statement.
 Print Assumptions C11_fn_body_markup.
+
+(* (e) the label map and the function records agree: every pair (l, fid) of `glabelfn` points to an existing
+   record, and the ENTRY of that record is a function-entry node that carries l.  (The markup pass appends
+   the record `mkfn entry ..` and the pairs for the labels of the node at `entry` together; no later pass
+   changes labels, node kinds, records or the map.)  Proofs/FnEntryProofs.v. *)
+From Coq Require Import List.
+From RV.Model Require Import Reader.
+From RV.Proofs Require Import FnEntryProofs.
+Import ListNotations.
+Definition C11_label_fn_entry_statement : Prop :=
+  forall picks ns g, gen_full_cfg picks ns = Ok (SOk g) ->
+    forall l fid, In (l, fid) (glabelfn g) ->
+      exists f c, nth_opt (gfuncs g) fid = Some f /\ nth_opt (gnodes g) (fentry f) = Some c /\
+                  is_function_entry (cn c) = true /\ mem_name l (clabels c) = true.
+Theorem C11_label_fn_entry : C11_label_fn_entry_statement.
+Proof. exact label_fn_entry. Qed.
+Check C11_label_fn_entry : C11_label_fn_entry_statement.
+Print Assumptions C11_label_fn_entry.
+
+(* the same for the pair the analyses look up (`assoc_fn`, used by `calls_to_from_cfg`): the function a
+   label owns starts at a function entry carrying that label *)
+Definition C11_label_fn_entry_assoc_statement : Prop :=
+  forall picks ns g, gen_full_cfg picks ns = Ok (SOk g) ->
+    forall l fid, assoc_fn l (glabelfn g) = Some fid ->
+      exists f c, nth_opt (gfuncs g) fid = Some f /\ node_at g (fentry f) c /\
+                  is_function_entry (cn c) = true /\ mem_name l (clabels c) = true.
+Theorem C11_label_fn_entry_assoc : C11_label_fn_entry_assoc_statement.
+Proof. exact label_fn_entry_assoc. Qed.
+Check C11_label_fn_entry_assoc : C11_label_fn_entry_assoc_statement.
+Print Assumptions C11_label_fn_entry_assoc.
+
+(* non-vacuity: two functions, the first owned by two labels.  The map has three pairs; each points to the
+   record whose entry is the function-entry node carrying the label (f, g -> function 0 at index 5;
+   h -> function 1 at index 8) *)
+Fixpoint C11_unlines (l : list str) : str :=
+  match l with [] => [] | x :: l' => x ++ [c_nl] ++ C11_unlines l' end.
+Definition C11_ex_text : str := C11_unlines
+  [ «"main:"»; «"    jal f"»; «"    jal h"»; «"    li a7, 10"»; «"    ecall"»;
+    «"f:"»; «"g:"»; «"    addi a0, a0, 1"»; «"    ret"»;
+    «"h:"»; «"    addi a0, a0, 2"»; «"    ret"» ].
+Definition C11_pair_ok (g : cfg) (p : str * nat) : bool :=
+  match nth_opt (gfuncs g) (snd p) with
+  | Some f => match nth_opt (gnodes g) (fentry f) with
+              | Some c => (is_function_entry (cn c) && mem_name (fst p) (clabels c))%bool
+              | None => false
+              end
+  | None => false
+  end.
+Example C11_example_label_fn_entry :
+  match parse_from_text false C11_ex_text with
+  | Ok (ns, errs) =>
+      errs = [] /\
+      match gen_full_cfg [] ns with
+      | Ok (SOk g) =>
+          glabelfn g = [(«"f"», 0%nat); («"g"», 0%nat); («"h"», 1%nat)] /\
+          map fentry (gfuncs g) = [5%nat; 8%nat] /\
+          map (fun c => map wv (clabels c)) (gnodes g) =
+            [[]; [«"main"»]; []; []; []; [«"f"»; «"g"»]; []; []; [«"h"»]; []; []] /\
+          forallb (C11_pair_ok g) (glabelfn g) = true
+      | _ => False
+      end
+  | _ => False
+  end.
+Proof. vm_compute. repeat split; reflexivity. Qed.
